@@ -72,6 +72,12 @@ class Report:
         for k, v in part.get("sets", {}).items():
             self.cov.setdefault(k, set()).update(v)
 
+    def require(self, cond, msg):
+        """Coverage floor of the harness: missing observations are *inconclusive* - unless violations were already
+        observed, in which case those are reported (a crashing library often is the reason for the missing data)."""
+        if not cond and not self.viol:
+            raise Inconclusive(msg)
+
     # -- finish -----------------------------------------------------------------------------
     def finish(self, evaluations, distinct_nontrivial, rule, extra_cov=None, min_eval=1):
         known = [k for k in load_known() if k.get("property") == self.prop]
@@ -109,7 +115,7 @@ class Report:
             "coverage": cov, "assumptions": self.assumptions, "wall_s": round(time.time() - self.t0, 2),
             "violations": len(new),
         }
-        if evaluations < min_eval or distinct_nontrivial < 2 or not cov["samples"]:
+        if (evaluations < min_eval or distinct_nontrivial < 2 or not cov["samples"]) and rc == 0:
             write_evidence(self.prop, ev)
             print("INCONCLUSIVE property=%s: observed too little (evaluations=%d distinct=%d)" % (
                 self.prop, evaluations, distinct_nontrivial))
